@@ -156,7 +156,18 @@ func (vc *VC) ghostAt(fr *Frame, n *Node, where, callee string, ord int, res ...
 			vc.specErrs = append(vc.specErrs, fmt.Sprintf("ghost statement %q: %v", g.Text, err))
 			continue
 		}
-		vc.store(n, lhs.LV, sc.term(rhs))
+		rt := sc.term(rhs)
+		if rhs.Sort == "Nil" {
+			switch sc.sortOfVal(lhs) {
+			case "Slice":
+				rt = "(mk-slice 0 0 0 0)"
+			case "Iface":
+				rt = "(mk-iface 0 0)"
+			default:
+				rt = "0"
+			}
+		}
+		vc.store(n, lhs.LV, rt)
 		fr.ghostDone[g] = true
 	}
 }
